@@ -73,14 +73,14 @@ type TSASpec struct {
 	Signer *Cert   // TSA signing certificate (its key signs the token)
 	Embed  []*Cert // certificates placed in the token (usually the TSA chain)
 
-	WrongImprint     bool // digest bytes changed
-	WrongHashAlg     bool // another hash algorithm identifier in the imprint
-	Nonce            string // "echo" (default), "wrong", "none"
-	CorruptSignature bool
-	WrongMsgDigest   bool // message-digest attribute does not match the TSTInfo
+	WrongImprint      bool   // digest bytes changed
+	WrongHashAlg      bool   // another hash algorithm identifier in the imprint
+	Nonce             string // "echo" (default), "wrong", "none"
+	CorruptSignature  bool
+	WrongMsgDigest    bool // message-digest attribute does not match the TSTInfo
 	NoSigningCertAttr bool
-	GenTime          time.Time
-	SignWith         *Key // sign with another key than Signer's
+	GenTime           time.Time
+	SignWith          *Key // sign with another key than Signer's
 }
 
 // ForgeTSToken builds the timeStampToken (ContentInfo) for a request.
